@@ -52,11 +52,16 @@ def cases(tier='quick'):
         # no vacancy: the jumping species hops between two INEQUIVALENT sites whose one-site clusters carry different energies
         mk('low-symmetry 2 sublattices 2x2x1, no vacancy, jumps between inequivalent sites', low2, np.array([[1, 1, 0], [0, 2, 0], [0, 0, 1]]), 0.95, 2, spectator=(1,), jumps=1.12),
         mk('low-symmetry 2 sublattices 2x2x1, vacancy on sublattice 1', low2, np.array([[1, 1, 0], [0, 2, 0], [0, 0, 1]]), 0.95, 2, spectator=(1,), vacancy=1, jumps=1.12),
+        # a mobile sublattice with two symmetry-related sites per cell and a vacancy: the orbit of a vacancy cluster mixes both site types
+        mk('HCP 2x2x1 vacancy at 5', hcp, np.diag([2, 2, 1]), 1.01, 2, vacancy=5, jumps=1.01),
+        # vacancy away from the cell at the origin, spectators around it unevenly occupied, transition-state clusters that hold spectator sites
+        mk('B2 nondiag, B spectator, vacancy at 2', b2, [[1, 1, 0], [0, 2, 0], [0, 0, 2]], 1.05, 3, spectator=(1,), vacancy=2, jumps=1.01),
+        mk('low-symmetry 2 sublattices 2x2x1, vacancy at 3', low2, np.array([[1, 1, 0], [0, 2, 0], [0, 0, 1]]), 0.95, 2, spectator=(1,), vacancy=3, jumps=1.12),
     ]
     if tier == 'thorough':
         out += [
             mk('FCC diag(3,1,2) nn + jumps', fcc, np.diag([3, 1, 2]), 0.8, 3, jumps=0.8),
-            mk('HCP 2x2x1 vacancy at 5', hcp, np.diag([2, 2, 1]), 1.01, 2, vacancy=5, jumps=1.01),
+            mk('HCP 2x2x1 vacancy at 2', hcp, np.diag([2, 2, 1]), 1.01, 2, vacancy=2, jumps=1.01),
             mk('B2 2x2x1 both mobile', b2, np.diag([2, 2, 1]), 0.9, 2, jumps=1.01, chem=0),
             mk('FCC 2x2x2 long range + vacancy', fcc, two, 1.5, 2, vacancy=0, jumps=0.8),
         ]
